@@ -76,6 +76,8 @@ def check_extractors(ctx, rule, only=None):
         def emptiness(o):
             for c in o["conds"]:
                 nb = normalize_bool_cond(c)
+                if nb and nb[0][0] == "unop" and nb[0][1] == "Not":
+                    nb = (nb[0][2], not nb[1])
                 if nb and is_call(nb[0]) and nb[0][1].endswith("::is_empty"):
                     a = nb[0][2][0]
                     while a[0] in ("ref", "deref"):
